@@ -77,6 +77,10 @@ def closed_pool(leaves, small, depth2=True, arr_len=2, keys=('a', 'b')):
         for la, a in small:
             for lb, b in small:
                 d1.append((f'{{{k1}:{la},{k2}:{lb}}}', {k1: a, k2: b}))
+        # the same objects built in the opposite insertion order: key order must not matter to any consumer
+        for la, a in small:
+            for lb, b in small:
+                d1.append((f'{{{k2}:{lb},{k1}:{la}}}rev', {k2: b, k1: a}))
     pool.extend(d1)
     if depth2:
         inner = [d1[0]] + [x for x in d1 if x[0] in (f'[{small[0][0]}]', f'[{small[-1][0]}]', '{}', f'{{{keys[0]}:{small[-1][0]}}}')]
